@@ -161,6 +161,8 @@ enum Sink<'c> {
     Position(&'c ExprClosure),
     Count,
     First,
+    Max,
+    Min,
 }
 
 impl<'a> R<'a> {
@@ -359,6 +361,8 @@ impl<'a> R<'a> {
                 Sink::Position(_) => "position",
                 Sink::Count => "count",
                 Sink::First => "next",
+                Sink::Max => "max",
+                Sink::Min => "min",
             };
             let sig = format!("{}:{}", sink_name, norm(self.text(s.expr.span())));
             self.loop_sigs.insert(k, sig);
@@ -491,6 +495,8 @@ impl<'a> R<'a> {
                 }
                 Sink::Count => body.push_str(&format!("{} += 1;\n", rv)),
                 Sink::First => body.push_str(&format!("if {}.is_none() {{ {} = Some({}); }}\n", rv, rv, cur)),
+                Sink::Max => body.push_str(&format!("{rv} = match {rv} {{ None => Some({c}), Some(__b) => if {c} >= __b {{ Some({c}) }} else {{ Some(__b) }} }};\n", rv = rv, c = cur)),
+                Sink::Min => body.push_str(&format!("{rv} = match {rv} {{ None => Some({c}), Some(__b) => if {c} < __b {{ Some({c}) }} else {{ Some(__b) }} }};\n", rv = rv, c = cur)),
             }
             for _ in 0..closers {
                 body.push_str("}\n");
@@ -634,6 +640,15 @@ impl<'a> R<'a> {
                 self.rule("R3:consumer-desugaring");
                 let lid = self.fresh(); self.pending_loop = Some(lid); let rv = format!("__r{}", lid);
                 let body = self.gen_pipeline(&p, &Sink::First, &rv);
+                Some(format!("{{ let mut {rv} = None;\n{body}{rv} }}", rv = rv, body = body))
+            }
+            ("max", 0) | ("min", 0) => {
+                // R3: maximum / minimum of a pipeline of totally ordered (integer-like) items
+                let p = self.parse_pipeline(&mc.receiver)?;
+                self.rule("R3:consumer-desugaring");
+                let lid = self.fresh(); self.pending_loop = Some(lid); let rv = format!("__r{}", lid);
+                let sink = if name == "max" { Sink::Max } else { Sink::Min };
+                let body = self.gen_pipeline(&p, &sink, &rv);
                 Some(format!("{{ let mut {rv} = None;\n{body}{rv} }}", rv = rv, body = body))
             }
             ("count", 0) => {
